@@ -13,11 +13,70 @@ cat > "$bd/c18ov/network.go" <<'GO'
 package network
 
 import (
+	"reflect"
 	"sync"
+	"sync/atomic"
+	"unsafe"
 
+	"github.com/piotrnar/gocoin/client/peersdb"
 	"github.com/piotrnar/gocoin/lib/btc"
 	"github.com/piotrnar/gocoin/lib/chain"
 )
+
+// VerifNewConnection returns a connection object in exactly the state
+// NewConnection(ad) produces, but reuses the memory of a finished one: allocating
+// the 16 MiB send buffer anew for each of ~10^5 connections costs 10 ms of page
+// faults each. Every field except sendBuf is copied from a pristine object made by
+// the real NewConnection (maps and channels are made afresh, with the same
+// capacity), so fields added to NewConnection later are followed automatically.
+var verifPristine *OneConnection
+
+func VerifNewConnection(old *OneConnection, ad *peersdb.PeerAddr) *OneConnection {
+	if old == nil {
+		return NewConnection(ad)
+	}
+	if verifPristine == nil {
+		verifPristine = NewConnection(nil)
+	}
+	verifCopy(reflect.ValueOf(old).Elem(), reflect.ValueOf(verifPristine).Elem())
+	old.PeerAddr = ad
+	old.ConnID = atomic.AddUint32(&LastConnId, 1)
+	return old
+}
+
+func verifCopy(dst, src reflect.Value) {
+	t := src.Type()
+	for i := 0; i < t.NumField(); i++ {
+		f := t.Field(i)
+		if f.Name == "sendBuf" {
+			continue
+		}
+		d := reflect.NewAt(f.Type, unsafe.Pointer(dst.Field(i).UnsafeAddr())).Elem()
+		s := reflect.NewAt(f.Type, unsafe.Pointer(src.Field(i).UnsafeAddr())).Elem()
+		switch f.Type.Kind() {
+		case reflect.Struct:
+			if f.Type.PkgPath() == "" || f.Type.PkgPath() == t.PkgPath() {
+				verifCopy(d, s)
+			} else {
+				d.Set(s)
+			}
+		case reflect.Map:
+			if s.IsNil() {
+				d.Set(reflect.Zero(f.Type))
+			} else {
+				d.Set(reflect.MakeMap(f.Type))
+			}
+		case reflect.Chan:
+			if s.IsNil() {
+				d.Set(reflect.Zero(f.Type))
+			} else {
+				d.Set(reflect.MakeChan(f.Type, s.Cap()))
+			}
+		default:
+			d.Set(s)
+		}
+	}
+}
 
 // VerifAddConn / VerifDelConn do what tcp_server does around conn.Run().
 func VerifAddConn(c *OneConnection) {
